@@ -699,6 +699,9 @@ class Interp(object):
         if owner is None:
             if name == "__class__":
                 return obj.cls
+            if obj.attrs.get("__open__"):
+                # state another method would have established: unknown here
+                return Term("unknown-attr:%s" % name, Term(obj.name))
             raise AnalysisError("%s has no attribute %s" % (obj, name))
         if isinstance(raw, FuncInfo):
             if raw.kind == "property":
@@ -1740,7 +1743,7 @@ def lib_getattr(fr: Frame, base, a: str, node):
 TERM_METHODS = {
     "upper", "lower", "casefold", "reverse_complement", "complement", "format", "get", "setdefault", "append", "index",
     "find", "match", "group", "lower", "items", "values", "keys", "startswith", "strip", "splitlines", "pop",
-    "extend", "insert", "remove", "join", "copy", "count",
+    "extend", "insert", "remove", "join", "copy", "count", "add", "discard", "update", "sort",
 }
 
 
@@ -1789,7 +1792,7 @@ def lib_call_method(fr: Frame, bm: BoundMethod, args, kwargs, node):
             if t.op in ("upper", "lower", "casefold"):
                 return Term(name, t.args[0])
             return Term(name, t)
-        if name in ("append", "extend", "insert", "remove", "pop", "setdefault"):
+        if name in ("append", "extend", "insert", "remove", "pop", "setdefault", "add", "discard", "update", "sort"):
             I.path.effects.append(("mutate", t, name, args))
             if name == "setdefault":
                 return Term("setdefault", t, *[_t(a) for a in args])
@@ -1953,7 +1956,9 @@ def lib_call(fr: Frame, dotted: str, args, kwargs, node):
             I.path.cons.add(t - v.min_len)
             return t
         if isinstance(v, Term):
-            return Term("len", v)
+            t = Aff.sym("len(%r)" % (v,))
+            I.path.cons.add(t)
+            return t
         if isinstance(v, AMap):
             t = Aff.sym("len:map:%s" % v.base)
             I.path.cons.add(t)
@@ -2009,6 +2014,10 @@ def lib_call(fr: Frame, dotted: str, args, kwargs, node):
         return (q, a - b.scale(q))
     if dotted == "builtins.reversed" and len(args) == 1 and isinstance(args[0], ARange):
         return ARange(args[0].lo, args[0].hi, desc=not args[0].desc)
+    if dotted == "builtins.set" and not args:
+        return I.new_term("set")
+    if dotted in ("builtins.sorted", "builtins.set", "builtins.frozenset", "builtins.tuple") and len(args) >= 1:
+        return Term(short, _t(args[0]))
     if dotted == "builtins.enumerate":
         return Term("enumerate", _t(args[0]))
     if dotted == "builtins.list":
